@@ -66,13 +66,14 @@ const HOSTNAMES: [&str; 8] = [
 const ENTITIES: [&str; 3] = ["example.*", "sub.example.*", "b.example.*"];
 
 /// Location lists with two items (each chosen for one interaction of positive / negated / entity).
-const PAIRS: [&str; 18] = [
+const PAIRS: [&str; 19] = [
     "example.com,example.org",          // two unrelated positives
     "example.com,~sub.example.com",     // host minus one subdomain
     "sub.example.com,~example.com",     // positive below a negated parent: applies nowhere
     "example.*,~example.co.uk",         // entity minus one concrete registrable domain
     "example.com,~example.*",           // host under a negated entity: applies nowhere
     "~example.com,~example.org",        // two negations only: generic elsewhere
+    "~example.com,~sub.example.*",      // a negated hostname and a negated entity: generic elsewhere
     "example.co.uk,~x.example.co.uk",   // multi-label suffix, host minus subdomain
     "example.*,~sub.example.*",         // entity minus entity
     "a.b.example.com,b.example.*",      // hostname and entity, both positive
